@@ -54,3 +54,27 @@ Definition reconstructs_phase_f (tol : float) (sh : list nat) (ops : list (gop (
 (* state preparation: the first column of the circuit's unitary *)
 Definition prepares_phase_f (tol : float) (sh : list nat) (ops : list (gop (K:=FC))) (psi : list FC) : bool :=
   fcl_close_phase tol (circ_state FOps sh ops (basis FOps sh 0)) psi.
+
+(* AxisAngleDecomposition: g * (cos(-t/2) I + i sin(-t/2) (x X + y Y + z Z)); c, s are cos(-t/2), sin(-t/2) *)
+Definition axis_angle_m (g : FC) (c s x y z : float) : FM :=
+  mscale FOps g [[(c, s * z); (s * y, s * x)]; [(- (s * y), s * x); (c, - (s * z))]].
+Definition axis_canonical_f (tol angle x y z : float) : bool :=
+  f_close tol (x * x + y * y + z * z) 1 && PrimFloat.leb (- tol) (x + y + z)
+  && PrimFloat.ltb (- (4 * fpi4) + tol) angle && PrimFloat.leb angle (4 * fpi4 + tol).
+(* the magic basis of so4_to_magic_su2s' docstring *)
+Definition magic_m : FM :=
+  mscale FOps (ks2 FOps) [[(1, 0); (0, 0); (0, 0); (0, 1)]; [(0, 0); (0, 1); (1, 0); (0, 0)];
+                          [(0, 0); (0, 1); (-1, 0); (0, 0)]; [(1, 0); (0, 0); (0, 0); (0, -1)]].
+Definition magic_conj (a b : FM) : FM := mmul FOps (mdagger FOps magic_m) (mmul FOps (kron FOps a b) magic_m).
+Definition fmdiag (d : list FC) : FM := mdiag FOps d.
+(* allclose-style entry comparison: |a-b| <= atol + rtol*|b| (numpy), componentwise on the difference modulus bound *)
+Definition fc_allclose (rtol atol : float) (a b : FC) : bool :=
+  let bound := atol + rtol * sqrt (fc_norm2 b) in fc_close bound a b.
+Fixpoint fcl_allclose (rtol atol : float) (a b : list FC) : bool :=
+  match a, b with
+  | [], [] => true
+  | x :: a', y :: b' => fc_allclose rtol atol x y && fcl_allclose rtol atol a' b'
+  | _, _ => false
+  end.
+Definition fcll_allclose (rtol atol : float) (a b : FM) : bool :=
+  Nat.eqb (length a) (length b) && fcl_allclose rtol atol (concat a) (concat b).
